@@ -9,6 +9,8 @@ func init() {
 			c.WhoWrites("C04")
 			c.LockerInternals("C04")
 			c.OneInstance("C04", "locker", "ruler") // every request path goes through the one locker
+			c.CheckSemantics("C07")                 // the permission decision is a function of the request alone (no memo shared between requests)
+			c.CredentialsRequestScoped("C19")
 			c.RulerKeyAgreement("C04")
 			c.SignerRefusalReasons("C04")
 			c.SigningRootProvenance("C04")
